@@ -23,7 +23,7 @@ def checks_for(path, func):
     f = func or ''
     base = os.path.basename(path)
     if base == 'classes.py':
-        return ['C07', 'C06', 'C12']
+        return ['C07', 'C06', 'C09', 'C12']
     if base == 'parsing.py':
         if 'decompile' in f:
             return ['C12', 'C20']
